@@ -307,7 +307,7 @@ struct Puppet12::Impl {
     Bytes build_server_hello() {
         server_random = rnd(32);
         if (cfg.resume.valid() && ch_sid == cfg.resume.id) { resumed_ = true; session_id = cfg.resume.id; master = cfg.resume.master; have_master = true; have_keys = false; override_master(); }
-        else session_id = rnd(32);
+        else session_id = cfg.server_empty_session_id ? Bytes() : rnd(32);
         ems = cfg.ems && client_offers_ems;
         Bytes b; put16(b, cfg.version); app(b, server_random); b.push_back((uint8_t) session_id.size()); app(b, session_id);
         put16(b, cfg.server_suite_override >= 0 ? (unsigned) cfg.server_suite_override : cfg.suite); b.push_back(0);
